@@ -118,7 +118,7 @@ class SimProc:
         self.script_digest = ""
         self.thread = None
         self.t_start = None
-        self.fault_die_after_send = None  # set by fault plans
+        self.die_after_sends = None  # fault: die right after the n-th complete request
 
     # -- loop side -------------------------------------------------------------------------
     async def run(self):
